@@ -178,6 +178,49 @@ def _fail_of(f):
     return oracle(''.join(map(chr, f['input'])))
 
 
+def static_scan():
+    """The heap theorems cover group_tokens / insert_*: the grouping passes must mutate the tree ONLY through
+    TokenList.group_tokens (plus the one ttype re-typing the property allows).  AST scan of engine/grouping.py: any store to
+    .tokens/.parent/.value, any del/slice-store on a .tokens list, any mutating list method on .tokens, any insert_* call is
+    reported.  -> list of (line, text)."""
+    import ast
+    import os
+    path = os.path.join(vlib.REPO, 'sqlparse', 'engine', 'grouping.py')
+    src = open(path, encoding='utf-8').read()
+    tree = ast.parse(src)
+    bad = []
+
+    def is_tokens(n):
+        return isinstance(n, ast.Attribute) and n.attr == 'tokens'
+
+    for n in ast.walk(tree):
+        targets = []
+        if isinstance(n, ast.Assign):
+            targets = n.targets
+        elif isinstance(n, (ast.AugAssign, ast.AnnAssign)):
+            targets = [n.target]
+        elif isinstance(n, ast.Delete):
+            targets = n.targets
+        for t in targets:
+            for u in ast.walk(t):
+                if isinstance(u, ast.Attribute) and u.attr in ('tokens', 'parent', 'value', 'normalized') and isinstance(u.ctx, (ast.Store, ast.Del)):
+                    bad.append((n.lineno, ast.unparse(n)))
+                if isinstance(u, ast.Subscript) and is_tokens(u.value):
+                    bad.append((n.lineno, ast.unparse(n)))
+        if isinstance(n, ast.Call) and isinstance(n.func, ast.Attribute):
+            if n.func.attr in ('append', 'extend', 'insert', 'pop', 'remove', 'clear', 'reverse', 'sort') and is_tokens(n.func.value):
+                bad.append((n.lineno, ast.unparse(n)))
+            if n.func.attr in ('insert_before', 'insert_after'):
+                bad.append((n.lineno, ast.unparse(n)))
+    # ttype stores: exactly the re-typing to Operator
+    for n in ast.walk(tree):
+        if isinstance(n, ast.Assign):
+            for t in n.targets:
+                if isinstance(t, ast.Attribute) and t.attr == 'ttype' and ast.unparse(n.value) != 'T.Operator':
+                    bad.append((n.lineno, ast.unparse(n)))
+    return bad
+
+
 def run(ctx):
     c = corr(ctx.rng, ctx.n(5000, 40000), ctx.n(1200, 10000))
     fails = list(c['violations'])
@@ -193,7 +236,10 @@ def run(ctx):
         f = ops_oracle(t, k, si, ops)
         if f:
             fails.append(f)
-    return {'failures': fails[:20], 'disagreements': c['disagreements'][:20],
+    dis = list(c['disagreements'][:20])
+    for line, text in static_scan():
+        dis.append({'stage': 'static: engine/grouping.py mutates the tree outside TokenList.group_tokens', 'line': line, 'detail': text[:200]})
+    return {'failures': fails[:20], 'disagreements': dis,
             'evaluations': c['cases'] + c['pipeline_statements'] + len(texts) + nops_checked,
             'distinct_nontrivial': c['distinct_nontrivial'],
             'rule': 'heapops stage: answers of every operation and the final object dump (kind, class/ttype, value, path of '
